@@ -12,7 +12,7 @@ META = dict(
     note='One tracked file (the decision is per file against one own_mtime). Edits made while a jj command is running carry no requirement (the model tracks them as noreq). Timestamps are forced after the fact with File::set_modified; the recorded check-out mtime is the real one and anchors the tick scale. Trusted: TLC, the 150-line replayer harness/jjconf/src/bin/wc/mtime.rs.',
     design='4 C26',
 )
-READY = False
+READY = True
 LEVEL = META["category"]
 
 
